@@ -9,6 +9,10 @@ import Homonim.Model.Resample
 import Homonim.Model.Fuse
 namespace Homonim
 
+/-- an image seen through a window: invalid outside it (a boundless, nodata-padded block read) -/
+def ImgO.restrict (img : ImgO) (wr wc : Win1) : ImgO :=
+  fun i j => if wr.lo ≤ i ∧ i < wr.hi ∧ wc.lo ≤ j ∧ j < wc.hi then img i j else none
+
 structure ImagePair where
   Sr : Axis      -- source rows (negated y), columns
   Sc : Axis
@@ -48,5 +52,33 @@ def ImagePair.corrected (p : ImagePair) (model : Model) (kh kw : Nat) (n0 n1 : R
           resample2 ups p.Rr p.Rc p.Sr p.Sc (p.offsetImg model kh kw n0 n1) r c with
     | some g, some o => some (g * x + o)
     | _, _ => none
+
+/-! ### source-grid processing (`SrcSpaceModel`): the reference is brought to the source grid, the kernel models are fitted
+    there and applied directly -/
+
+/-- the part of the reference a single-block run reads: the reference pixels that meet the processing window `_src_win`
+    (nothing beyond it is read, so an up-sampling kernel finds no neighbours past that edge) -/
+def ImagePair.refRead (p : ImagePair) : ImgO :=
+  p.ref.restrict (expandTo p.Sr p.Rr (srcWin p.Sr p.Rr)) (expandTo p.Sc p.Rc (srcWin p.Sc p.Rc))
+
+/-- the reference as seen on the source grid; `m` = `average` when the reference is the finer image (the automatic choice
+    of the source grid), an up-sampling kernel when the source grid was forced on the finer image -/
+def ImagePair.refOnSrc (p : ImagePair) (m : Resampling) : ImgO :=
+  fun r c => resample2 m p.Rr p.Rc p.Sr p.Sc p.refRead r c
+
+/-- the co-gridded block covering the whole source image -/
+def ImagePair.blockSrc (p : ImagePair) (m : Resampling) : Block :=
+  { h := p.Sr.n.toNat, w := p.Sc.n.toNat
+    src := fun i j => (p.src i j).getD 0, ref := fun i j => (p.refOnSrc m i j).getD 0
+    sm := fun i j => (p.src i j).isSome, rm := fun i j => (p.refOnSrc m i j).isSome }
+
+/-- corrected source pixel `(r, c)` with source-grid processing (no in-painting) -/
+def ImagePair.correctedSrcGrid (p : ImagePair) (model : Model) (kh kw : Nat) (n0 n1 : Rat) (m : Resampling) (r c : Int) :
+    Option Rat :=
+  if 0 ≤ r ∧ r < p.Sr.n ∧ 0 ≤ c ∧ c < p.Sc.n then
+    match p.src r c, fitAt (p.blockSrc m) model kh kw false none n0 n1 (fun _ _ => none) r.toNat c.toNat with
+    | some x, some prm => some (prm.gain * x + prm.offset)
+    | _, _ => none
+  else none
 
 end Homonim
